@@ -102,6 +102,10 @@ def _build():
     _add('inner[a2b1|raggedA]', 'inner', 'a2b1', 'a1b2', ['ii', 'i'], ['ii', 'ii'], quick=True)
     _add('left[two|raggedB]', 'left', 'two', 'star', ['ii', 'ii'], ['ii', 'i'], quick=True)
     _add('left[a1b1|raggedBwide]', 'left', 'a1b1', 'bstar', ['ii', 'ii'], ['i', 'iii'], quick=True)
+    # LEFT JOIN null record: as wide as the WIDEST B record, whatever the order of the widths
+    for nm, bshape in (('w3-1-2', ['kkk', 'k', 'kk']), ('w1-3-2-1', ['k', 'kkk', 'kk', 'k']), ('w2-3-1-2', ['kk', 'kkk', 'k', 'kk'])):
+        _add('left[a1b1|nullwidth-%s]' % nm, 'left', 'a1b1', 'bnr', ['kk', 'kk'], bshape, quick=(nm == 'w3-1-2'), krange=2)
+        _add('leftouter[a1b1|nullwidth-star-%s]' % nm, 'leftouter', 'a1b1', 'star', ['kk'], bshape, quick=(nm != 'w3-1-2'), krange=3)
     _add('left[a1b1|emptyB]', 'left', 'a1b1', 'star', ['ii', 'ii'], [])
     _add('inner[a1b1|emptyA]', 'inner', 'a1b1', 'star', [], ['ii'])
     _add('strict[a1b1|emptyB]', 'strict', 'a1b1', 'a1b2', ['ki'], [], krange=2)
